@@ -30,8 +30,12 @@ pub enum Case {
     /// two runs on the same input; oracle "c23" (same mode, two environments) or "c22_diff"
     /// (a = all checks, b = a selection; per-check output must agree)
     Pair { mode_a: CliMode, env_a: Env, mode_b: CliMode, env_b: Env },
-    /// `--module-versions`; oracle "module_versions"
-    ModuleVersions { env: Env },
+    /// `--module-versions` (plus further flags that must not matter); oracle "module_versions"
+    ModuleVersions {
+        env: Env,
+        #[serde(default)]
+        extra: Vec<String>,
+    },
 }
 
 #[derive(Serialize, Deserialize)]
@@ -290,8 +294,10 @@ pub fn evaluate(ctx: &Ctx, wd: &WorkDir, oracle_kind: &str, case: &Case, lkm: bo
                 (Err(v), _) | (_, Err(v)) => Err((v, vec![a, b])),
             }
         }
-        ("module_versions", Case::ModuleVersions { env }) => {
-            let out = run::run_raw(wd, &ctx.paths, &["--module-versions".to_string()], env);
+        ("module_versions", Case::ModuleVersions { env, extra }) => {
+            let mut argv = vec!["--module-versions".to_string()];
+            argv.extend(extra.iter().cloned());
+            let out = run::run_raw(wd, &ctx.paths, &argv, env);
             if out.exit != Some(0) {
                 return Err((viol("module_versions_listing", format!("--module-versions exited with {:?}", out.exit)), vec![out]));
             }
@@ -381,6 +387,31 @@ fn discover(paths: &Paths, verif_dir: &str) -> Known {
             }
         }
     }
+    // Which checks outside the kernel-module subset can be selected on a kernel module at all?
+    // `lkm_config.json` ships no section for them; a check that deserialises its section panics on
+    // `null` (scope decision, DESIGN 4.3), one that ignores its configuration runs. Probe three
+    // kernel-module workloads; a check is selectable iff all probes end normally.
+    let mut probes = Vec::new();
+    let mut i = 0u64;
+    while probes.len() < 3 && i < 2000 {
+        let w = gen::generate(derive(0x70726f6265, "CLI.probe", i, 0));
+        if w.meta.lkm {
+            probes.push(w);
+        }
+        i += 1;
+    }
+    let candidates: Vec<String> = k.versions.keys().filter(|c| !k.lkm.contains(*c)).cloned().collect();
+    for c in candidates {
+        let mode = CliMode::json_quiet(Selection::Partial(vec![c.clone()]));
+        let ok = probes.iter().all(|w| {
+            wd.write_workload(&serde_json::to_vec(&w.pcode).unwrap(), &w.elf);
+            let out = run::run_cli(&wd, paths, &mode, &Env::baseline(), true);
+            out.exit == Some(0) && serde_json::from_slice::<Vec<Warning>>(&out.stdout).is_ok()
+        });
+        if ok && !probes.is_empty() {
+            k.lkm_selectable.insert(c);
+        }
+    }
     if k.lkm.is_empty() || k.source_names.is_empty() {
         eprintln!("HARNESS ERROR: could not read MODULES_LKM / CWE_MODULE definitions from the source tree");
         std::process::exit(2);
@@ -405,11 +436,13 @@ fn gen_env(seed: u64) -> Env {
     };
     // a fifth of the runs receive the extractor output through a pipe instead of a regular file
     let pipe = r.chance(20);
-    Env { entropy, sched, io, pipe }
+    // a third of the runs find an older, longer result file at the --out path
+    let stale_out = r.chance(33);
+    Env { entropy, sched, io, pipe, stale_out }
 }
 
 fn all_checks(known: &Known, lkm: bool) -> Vec<String> {
-    if lkm { known.lkm.iter().cloned().collect() } else { known.versions.keys().cloned().collect() }
+    if lkm { known.lkm.union(&known.lkm_selectable).cloned().collect() } else { known.versions.keys().cloned().collect() }
 }
 
 fn gen_selection(r: &mut Rng, known: &Known, lkm: bool) -> Selection {
@@ -761,6 +794,7 @@ fn simplify_case(ctx: &Ctx, wd: &WorkDir, oracle_kind: &str, case: &Case, lkm: b
         let mut v = Vec::new();
         if e.io != "0" { v.push(Env { io: "0".into(), ..e.clone() }); }
         if e.pipe { v.push(Env { pipe: false, ..e.clone() }); }
+        if e.stale_out { v.push(Env { stale_out: false, ..e.clone() }); }
         if e.sched != "sticky" { v.push(Env { sched: "sticky".into(), ..e.clone() }); }
         if e.entropy != 0 { v.push(Env { entropy: 0, ..e.clone() }); }
         v
@@ -864,13 +898,29 @@ pub fn run_check(prop: &str, tier: &str, workloads_override: Option<u64>, dump: 
     }
     println!("{prop} tier={tier} VERIF_SEED={seed} workloads={workloads} environments_per_workload={envs} threads={threads}");
     println!("checks of this build: {:?}", ctx.known.versions.keys().collect::<Vec<_>>());
+    println!("kernel-module subset: {:?}; selectable on kernel modules besides: {:?}", ctx.known.lkm, ctx.known.lkm_selectable);
 
     // module-version listing (C22): under several hash seeds
     let mut total = Agg::default();
     if prop == "C22" {
         let wd = WorkDir::new(&work_root.join("mv"), &ctx.paths);
-        for k in 0..8u64 {
-            let case = Case::ModuleVersions { env: Env { entropy: k * 7919, ..Env::baseline() } };
+        for k in 0..12u64 {
+            // the listing does not depend on whatever else is on the command line
+            let mut r = Rng::new(derive(ctx.seed, "C22.mv", k, 0));
+            let mut extra: Vec<String> = Vec::new();
+            if k >= 4 {
+                if r.chance(60) {
+                    let mut p: Vec<String> = ctx.known.versions.keys().cloned().collect();
+                    r.shuffle(&mut p);
+                    p.truncate(r.range(1, 4) as usize);
+                    extra.push("--partial".into());
+                    extra.push(p.join(","));
+                }
+                if r.chance(40) { extra.push("--json".into()); }
+                if r.chance(40) { extra.push("--quiet".into()); }
+                if r.chance(30) { extra.push("--statistics".into()); extra.retain(|a| a != "--quiet"); }
+            }
+            let case = Case::ModuleVersions { env: Env { entropy: k * 7919, ..Env::baseline() }, extra };
             match evaluate(&ctx, &wd, "module_versions", &case, false) {
                 Ok(_) => total.runs += 1,
                 Err((v, _)) => {
